@@ -15,6 +15,7 @@ package main
 
 import (
 	"context"
+	"crypto/tls"
 	"crypto/x509"
 	"encoding/json"
 	"errors"
@@ -46,6 +47,7 @@ type c13Action struct {
 	Name    int    `json:"name,omitempty"`    // arrive: name index
 	Allow   *bool  `json:"allow,omitempty"`   // release at a decision gate
 	Outcome string `json:"outcome,omitempty"` // release at an issue gate: ok | fail | cancel
+	Mgr     bool   `json:"mgr,omitempty"`     // release at the external manager's gate (it answers nil, nil)
 }
 
 type c13Case struct {
@@ -53,6 +55,7 @@ type c13Case struct {
 	Threads  int         `json:"threads"`
 	Seed     int64       `json:"seed"`              // drives the random schedule when Actions is empty
 	Actions  []c13Action `json:"actions,omitempty"` // explicit schedule (corpus / replay)
+	Mgr      bool        `json:"mgr,omitempty"`     // an external manager (OnDemand.Managers) is configured: slow, answers (nil, nil)
 }
 
 // ---------------------------------------------------------------- environment
@@ -220,7 +223,20 @@ var c13Scenarios = []string{"fresh", "stored-valid", "cached-due", "cached-expir
 
 var c13Uniq int
 
-func c13NewEnv(scenario string) (*c13Env, error) {
+// c13Manager is the external certificate manager double: every call is held at a gate of its own (the
+// manager's latency, chosen by the driver) and then answers (nil, nil), so that the flow continues
+// with the policy, storage and the issuer. certmagic asks the managers inside the load single-flight
+// section: of N handshakes for an uncached name only the load worker may be in the manager at any time.
+type c13Manager struct{ e *c13Env }
+
+func (m c13Manager) GetCertificate(ctx context.Context, hello *tls.ClientHelloInfo) (*tls.Certificate, error) {
+	if th := m.e.threadOfCaller(); th != nil {
+		m.e.hold(th, "manager")
+	}
+	return nil, nil
+}
+
+func c13NewEnv(scenario string, mgr bool) (*c13Env, error) {
 	c13Uniq++
 	e := &c13Env{b: doubles.NewMemBackend(), ca: doubles.NewCA("harness CA"), byGid: map[int64]*c13Thread{}, scenario: scenario}
 	e.names = []string{fmt.Sprintf("n0.u%d.c13.example", c13Uniq), fmt.Sprintf("n1-%d.c13other.example", c13Uniq)}
@@ -233,6 +249,9 @@ func c13NewEnv(scenario string) (*c13Env, error) {
 	e.iss = &doubles.IssuerDouble{Key: c02IssuerKey, CA: e.ca, Log: e.b.Log, Inst: "i1"}
 	tmpl := certmagic.Config{OCSP: certmagic.OCSPConfig{DisableStapling: true},
 		OnDemand: &certmagic.OnDemandConfig{DecisionFunc: e.decision}}
+	if mgr {
+		tmpl.OnDemand.Managers = []certmagic.Manager{c13Manager{e}}
+	}
 	e.cfg, e.cache = doubles.NewConfig(e.b.Handle("i1"), tmpl, certmagic.CacheOptions{}, e.iss)
 	if scenario != "fresh" {
 		class := map[string]string{"stored-valid": "valid", "cached-due": "due", "cached-expired": "expired",
@@ -603,6 +622,13 @@ func (e *c13Env) observe(enc *emit.Enc, act c13Action, nBefore int) (c13Seen, er
 	case "arrive":
 		enc.Int(0).Int(act.T).Int(act.Name)
 	case "release":
+		if act.Mgr {
+			// the manager answered (nil, nil): for the LTS, which has no manager, nothing happens — the
+			// goroutine is and stays "before its policy gate" (a no-op label: MSetCert of a certificate
+			// generation that does not exist)
+			enc.Int(2).Int(0).Int(9999).Int(0).Bool(false)
+			break
+		}
 		enc.Int(1).Int(act.T)
 		switch {
 		case act.Allow != nil:
@@ -660,6 +686,22 @@ func (e *c13Env) observe(enc *emit.Enc, act c13Action, nBefore int) (c13Seen, er
 			var g int
 			fmt.Sscanf(th.pos, "done-cert:%d", &g)
 			enc.Int(6).Int(g)
+		} else if th.pos == "at-manager" {
+			// held inside Manager.GetCertificate: for the LTS the load worker before its policy gate
+			// (code 0); two goroutines for one name there at the same time: the single-flight section
+			// does not cover the manager call (code 10: not a position of the model, the specification fails)
+			n := 0
+			for _, o := range e.threads {
+				if o.name == th.name && o.pos == "at-manager" {
+					n++
+				}
+			}
+			if n > 1 {
+				enc.Int(10)
+				seen.Pos = append(seen.Pos, "overlapping-manager-call")
+				continue
+			}
+			enc.Int(0)
 		} else {
 			enc.Int(c13PosCode[th.pos])
 		}
@@ -691,7 +733,7 @@ func (e *c13Env) observe(enc *emit.Enc, act c13Action, nBefore int) (c13Seen, er
 }
 
 func c13RunCase(w *emit.Writer, cs *c13Case, desc map[string]any) error {
-	env, err := c13NewEnv(cs.Scenario)
+	env, err := c13NewEnv(cs.Scenario, cs.Mgr)
 	if err != nil {
 		return err
 	}
@@ -787,7 +829,7 @@ func c13RunCase(w *emit.Writer, cs *c13Case, desc map[string]any) error {
 		case "release":
 			if a.T < len(env.threads) && env.threads[a.T].gate != nil {
 				k := env.threads[a.T].gate.kind
-				applicable = (k == "decision") == (a.Allow != nil) && (k == "issue") == (a.Outcome != "")
+				applicable = (k == "decision") == (a.Allow != nil) && (k == "issue") == (a.Outcome != "") && (k == "manager") == a.Mgr
 			}
 		case "cancel":
 			applicable = a.T < len(env.threads) && env.threads[a.T].pos == "wait-load"
@@ -822,6 +864,8 @@ func c13RunCase(w *emit.Writer, cs *c13Case, desc map[string]any) error {
 							c13Action{Kind: "release", T: th.tid, Allow: &yes}, c13Action{Kind: "release", T: th.tid, Allow: &no})
 					case "load", "exists":
 						acts = append(acts, c13Action{Kind: "release", T: th.tid}, c13Action{Kind: "release", T: th.tid})
+					case "manager":
+						acts = append(acts, c13Action{Kind: "release", T: th.tid, Mgr: true})
 					case "issue":
 						acts = append(acts, c13Action{Kind: "release", T: th.tid, Outcome: "ok"}, c13Action{Kind: "release", T: th.tid, Outcome: "ok"},
 							c13Action{Kind: "release", T: th.tid, Outcome: "fail"})
@@ -1007,6 +1051,16 @@ func c13Run(tier string, seed int64, outdir string, replay string) error {
 			return err
 		}
 	}
+	// ---- corpus: a swarm of handshakes for an uncached name with a slow external manager: only the load
+	// worker is inside Manager.GetCertificate, the others wait for it on the load channel ----
+	for i, sc := range []string{"fresh", "stored-valid"} {
+		acts := []c13Action{{Kind: "arrive", T: 0}, {Kind: "arrive", T: 1}, {Kind: "arrive", T: 2}, {Kind: "arrive", T: 3},
+			{Kind: "release", T: 0, Mgr: true}, {Kind: "release", T: 0, Allow: &yes}}
+		cs := &c13Case{Scenario: sc, Threads: 5, Seed: int64(800 + i), Actions: acts, Mgr: true}
+		if err := c13RunCase(w, cs, map[string]any{"class": "manager-swarm", "scenario": cs.Scenario}); err != nil {
+			return err
+		}
+	}
 	// ---- corpus: the waiters of a successful renewal find its result although the old certificate left
 	// the cache meanwhile ----
 	// cached expired certificate: handshake 0 is the (foreground) renewal worker, handshake 1 waits; while
@@ -1077,6 +1131,7 @@ func c13Run(tier string, seed int64, outdir string, replay string) error {
 	for _, sc := range c13Scenarios {
 		for i := 0; i < n; i++ {
 			cs := &c13Case{Scenario: sc, Threads: 2 + rr.Intn(5), Seed: rr.Int63()}
+			cs.Mgr = i%8 == 7 // every eighth run: with a slow external manager
 			if err := c13RunCase(w, cs, map[string]any{"class": "random", "scenario": sc}); err != nil {
 				if errors.Is(err, c13ErrUnsettled) {
 					return err
